@@ -68,6 +68,7 @@ fn sheet_name() -> impl Strategy<Value = Option<String>> {
         1 => Just(Some("AB12".to_string())),
         1 => Just(Some("Übersicht".to_string())),
         1 => Just(Some("Données".to_string())),
+        1 => prop_oneof![Just(Some("~Q1".to_string())), Just(Some("~FY21".to_string()))],
         1 => Just(Some("日本 語".to_string())),
         1 => Just(Some("It's".to_string())),
     ]
